@@ -105,13 +105,20 @@ PINNED = [
     ("lock-order", {"reduction": "dpor", "explorer": "DFS", "max_errors": 3}),
     ("lock-order", {"reduction": "odpor", "explorer": "DFS", "max_errors": 3}),
     ("first-step-assert", {"reduction": "dpor", "explorer": "DFS", "max_errors": 0}),
+    ("odpor-random-crash", {"reduction": "odpor", "explorer": "DFS", "max_errors": 0}),
+    ("odpor-random-fragment", {"reduction": "odpor", "explorer": "DFS", "max_errors": 1}),
 ]
+PINNED_PROGRAMS = {     # programs only run under their pinned setting
+    "odpor-random-crash": "actor Q0.1 E1 Q0.1 K2\nactor Q0.2 I2 Q0.2 I1\ndyn Q0.2 I1 Q0.1 I1 Q0.1 I2 Q0.1 I2\n",
+    "odpor-random-fragment": "mutex 2\nmbox 1\nactor G0 Q0.1 I1 S0.2 S0.2 L0 O0 U0\nactor Q0.1 I1\nactor S0.21 T0 I2 O0 U0\n"
+                             "actor Q0.1 E1 I2 Q0.1 I2\n",
+}
 
 
 REPLAY_ENV_ASAN = {"UBSAN_OPTIONS": "halt_on_error=0:print_stacktrace=0"}   # see level_note (misaligned unpack in Channel.hpp)
 
 
-def judge_report(ref, refres, res, rep, earlier, setting):
+def judge_report(ref, refres, res, rep, earlier, setting, has_random=False):
     """Judges (1) and (2). Returns (list of (key, what), reference result, stale flag).
     earlier = [(report, reference result, confirmed)] of the previous reports of the same run."""
     tail = _key_tail(setting)
@@ -161,6 +168,12 @@ def judge_report(ref, refres, res, rep, earlier, setting):
             out.append(("C41:app-log:%s:%s" % (rep.kind, tail),
                         "the application never saw a %s after executing exactly '%s' (its log has %s)"
                         % (rep.kind, rep.path, sorted(set((k, tr) for k, tr, _ in res.records if k == rep.kind))[:5])))
+    if out and not stale and has_random and setting["reduction"] == "odpor":
+        # ODPOR + a transition with several variants (MC_random): known defect class (the state that still has a variant to
+        # explore is garbage collected, the parent chain used for record traces and for backtracking replays is cut)
+        sym = "false-crash-report" if rep.kind == "CRASH" else "bad-path:%s" % rep.kind
+        out = [("C41:odpor+MC_random:%s:%s" % (sym, tail),
+                "ODPOR on a program using MC_random: " + out[0][1])]
     if stale and out:
         out = [("C41:phantom-deadlock:stale-application-state:%s" % tail,
                 "deadlock reported with path '%s' while the application was still in the deadlock of an earlier report of the "
@@ -254,7 +267,8 @@ def evaluate(ctx, env, case, corrupt=None):
         ctx.count("reports")
         ctx.count("reports.%s" % rep.kind)
         w = dict(base_w, report=rep.as_dict(), report_index=rep.index)
-        found, rc, stale = judge_report(ref, refres, res, rep, earlier, setting)
+        found, rc, stale = judge_report(ref, refres, res, rep, earlier, setting,
+                                        has_random=any(k == "Q" for _, ops in prog.actors for k, _, _ in ops))
         ctx.count("reference.steps_followed", rc["n"])
         if res.records:
             ctx.count("applog.compared")
@@ -333,10 +347,11 @@ def run(ctx):
     try:
         cases = []
         dprogs = dict(mcprog_cex.directed())
-        drefs = {name: cex_ref.Ref(prog).explore(max_states=20000) for name, prog in dprogs.items()}
+        pprogs = {name: cex_ref.parse(text) for name, text in PINNED_PROGRAMS.items()}
+        drefs = {name: cex_ref.Ref(prog).explore(max_states=20000) for name, prog in list(dprogs.items()) + list(pprogs.items())}
         done = set()
         for name, st in PINNED:
-            cases.append(Case(name, dprogs[name], drefs[name], st, "pinned"))
+            cases.append(Case(name, dprogs.get(name) or pprogs[name], drefs[name], st, "pinned"))
             done.add((name, tuple(sorted(st.items()))))
         for name, prog in dprogs.items():
             for st in settings_for(drefs[name], ctx.tier, ctx.sub_rng("d", name), directed=True):
